@@ -185,6 +185,8 @@ inductive Src (α : Type) where
   | chain (xss : List (List α))     -- several iterables: `it.chain`
   | const (v : α)                   -- one non-iterable: `it.repeat` (for `thub`: the object itself)
   | obj (j : Nat)                   -- an existing Stream (moved) or StreamTeeHub (one use)
+  /-- several iterables, one of them an existing object: `Stream(pre, x_j, post)`, `s.append(pre, x_j, post)` -/
+  | mixed (pre : List α) (j : Nat) (post : List α)
 
 inductive Op (α : Type) where
   | new (s : Src α)
@@ -235,6 +237,16 @@ def mkSrc (st : St α) : Src α → Except String (St α × It α)
       match uses.getLast? with
       | none => .error "IndexError"
       | some u => .ok (⟨st.heap, st.pool.set j (.hub uses.dropLast)⟩, u)
+    | _ => .error "noobj"
+  -- every argument is asked for its iterator when the call is made (the use of a hub is taken
+  -- by the call, as for a single argument); the real `it.chain(*args)` asks lazily: finding D16
+  | .mixed pre j post =>
+    match st.pool[j]? with
+    | some (.stream it) => .ok (⟨st.heap, st.pool.set j .dead⟩, .chain (.src pre) (.chain it (.src post)))
+    | some (.hub uses) =>
+      match uses.getLast? with
+      | none => .error "IndexError"
+      | some u => .ok (⟨st.heap, st.pool.set j (.hub uses.dropLast)⟩, .chain (.src pre) (.chain u (.src post)))
     | _ => .error "noobj"
 
 /-- the object the method works on: a Stream itself, or `Stream(hub)` (one use popped)
@@ -392,5 +404,94 @@ def run (f : Nat) : St α → List (Op α) → List (Option (Obs α))
     | some (st', o) => some o :: run f st' ops
 
 def St.empty : St α := ⟨[], []⟩
+
+/-! ### the caller's side of a history (`hist`): containers owned by the caller
+
+Every container a method hands out (`take(n)`, `peek(n)`, `list(stream)`) and every list the
+caller builds himself is an object of the caller: he may change it in place afterwards
+(`Mut`) and may pass it to `Stream(...)`, `append(...)`, `thub(..., n)`.  The model keeps these
+objects in a second heap `lists` (index = order of creation).  Passing a list passes its
+contents *at the time of the call* (`*Ref` operations are the plain operation on a literal):
+what the caller does to a container afterwards never reaches a stream, and no operation of a
+stream ever writes into a container of the caller (`hstep` only appends new ones).  In the real
+code a list argument is read lazily through a list iterator; histories that mutate a list
+while an iterator over it is still alive are outside the list model (see ASSUMPTIONS of the
+harness) and are not generated. -/
+
+/-- what the caller does, in place, to a list he owns -/
+inductive Mut (α : Type) where
+  | clear                      -- `del p[:]`
+  | reverse                    -- `p.reverse()`
+  | pop0                       -- `del p[:1]`
+  | popLast                    -- `del p[-1:]`
+  | extend (xs : List α)       -- `p.extend(xs)`
+  | fill (v : α)               -- `p[:] = [v] * len(p)`
+
+def Mut.apply : Mut α → List α → List α
+  | .clear, _ => []
+  | .reverse, xs => xs.reverse
+  | .pop0, xs => xs.drop 1
+  | .popLast, xs => xs.dropLast
+  | .extend ys, xs => xs ++ ys
+  | .fill v, xs => xs.map fun _ => v
+
+inductive HOp (α : Type) where
+  /-- a method call; a returned container becomes a new list of the caller -/
+  | op (o : Op α)
+  /-- the caller builds a list -/
+  | lit (xs : List α)
+  /-- the caller changes list `j` in place -/
+  | edit (j : Nat) (m : Mut α)
+  /-- `Stream(L_j)` -/
+  | newRef (j : Nat)
+  /-- `x.append(L_j)` -/
+  | appendRef (i j : Nat)
+  /-- `thub(L_j, n)` -/
+  | thubRef (j n : Nat)
+
+structure HSt (α : Type) where
+  st : St α
+  lists : List (List α)
+
+/-- the container of an observation (if any) joins the caller's lists -/
+def keep (ls : List (List α)) : Obs α → List (List α)
+  | .items vs => ls ++ [vs]
+  | _ => ls
+
+/-- a method call inside a `hist` history -/
+def stepKeep (f : Nat) (s : HSt α) (o : Op α) : Option (HSt α × Obs α) :=
+  match step f s.st o with
+  | none => none
+  | some (st', ob) => some (⟨st', keep s.lists ob⟩, ob)
+
+def hstep (f : Nat) (s : HSt α) : HOp α → Option (HSt α × Obs α)
+  | .op o => stepKeep f s o
+  | .lit xs => some (⟨s.st, s.lists ++ [xs]⟩, .new s.lists.length)
+  | .edit j m =>
+    match s.lists[j]? with
+    | none => some (s, .err "nolist")
+    | some xs => some (⟨s.st, s.lists.set j (m.apply xs)⟩, .unit)
+  | .newRef j =>
+    match s.lists[j]? with
+    | none => some (s, .err "nolist")
+    | some xs => stepKeep f s (.new (.list xs))
+  | .appendRef i j =>
+    match s.lists[j]? with
+    | none => some (s, .err "nolist")
+    | some xs => stepKeep f s (.append i (.list xs))
+  | .thubRef j n =>
+    match s.lists[j]? with
+    | none => some (s, .err "nolist")
+    | some xs => stepKeep f s (.thub (.list xs) n)
+
+/-- observations of every step and the caller's lists at the end -/
+def hrun (f : Nat) : HSt α → List (HOp α) → List (Option (Obs α)) × List (List α)
+  | s, [] => ([], s.lists)
+  | s, hop :: hops =>
+    match hstep f s hop with
+    | none => ([none], s.lists)
+    | some (s', o) => let r := hrun f s' hops; (some o :: r.1, r.2)
+
+def HSt.empty : HSt α := ⟨St.empty, []⟩
 
 end ALV.C03
